@@ -334,10 +334,11 @@ theorem parseTok_render (ns : Ns) : ∀ e : Expr, WF e → TokIH ns e := by
   intro e
   induction e using Expr.ind with
   | hint n =>
-    intro _ l fuel _ hf
+    intro hw l fuel _ hf
     obtain ⟨f, rfl⟩ : ∃ f, fuel = f + 1 := ⟨fuel - 1, by omega⟩
+    rw [WF] at hw
     rw [renderExpr, tyOf, parseTok.eq_def]
-    simp only [pyInt_decimal, tokOf]; rfl
+    simp only [parseIntTok_decimal n hw, tokOf]; rfl
   | hstr s =>
     intro hw l fuel _ hf
     obtain ⟨f, rfl⟩ : ∃ f, fuel = f + 1 := ⟨fuel - 1, by omega⟩
